@@ -924,7 +924,7 @@ Notation ev1 := (eval fe cfg1 env1).
 Notation ev2 := (eval fe cfg2 env2).
 
 Definition agree (e1 e2 : expr) : Prop := forall ctx s, ragree (ev1 ctx e1 s) (ev2 ctx e2 s).
-Definition P (e1 : expr) : Prop := forall e2, same_shape e1 e2 -> ok fe env1 e1 -> ok fe env2 e2 -> agree e1 e2.
+Definition node_agrees (e1 : expr) : Prop := forall e2, same_shape e1 e2 -> ok fe env1 e1 -> ok fe env2 e2 -> agree e1 e2.
 
 Lemma bin_strict_agree here1 here2 op l1 r1 l2 r2 va vb s :
   ragree (bin_strict fe cfg1 here1 op l1 r1 va vb s) (bin_strict fe cfg2 here2 op l2 r2 va vb s).
@@ -932,11 +932,12 @@ Proof.
   destruct op; try (cbn [bin_strict]; ra; fail).
   - intros v1 s1 v2 s2 E1 E2. apply beq_done in E1. apply beq_done in E2.
     destruct E1 as [E1 ->]. destruct E2 as [E2 ->]. rewrite E1 in E2. inversion E2. auto.
-  - cbn [bin_strict]. ra. destruct (range_size a a0); [|ra]. apply ragree_alloc; [exact Hlim|]. intros s'. ra.
+  - cbn [bin_strict]. apply ragree_lift. intros lo. apply ragree_lift. intros hi.
+    destruct (range_size lo hi); [|ra]. apply ragree_alloc; [exact Hlim|]. intros s'. ra.
 Qed.
 
 Lemma ev_list_agree ctx : forall l1 l2, map erase l1 = map erase l2 ->
-  (forall x, In x l1 -> P x) -> (forall x, In x l1 -> ok fe env1 x) -> (forall x, In x l2 -> ok fe env2 x) ->
+  (forall x, In x l1 -> node_agrees x) -> (forall x, In x l1 -> ok fe env1 x) -> (forall x, In x l2 -> ok fe env2 x) ->
   forall s k1 k2, (forall vs s', ragree (k1 vs s') (k2 vs s')) ->
   ragree (ev_list fe cfg1 env1 ctx l1 s k1) (ev_list fe cfg2 env2 ctx l2 s k2).
 Proof.
@@ -955,7 +956,7 @@ Proof.
 Qed.
 
 Lemma ev_pairs_agree ctx here1 here2 : forall l1 l2, map erase l1 = map erase l2 ->
-  (forall a k v, In (EPair a k v) l1 -> P k /\ P v) ->
+  (forall a k v, In (EPair a k v) l1 -> node_agrees k /\ node_agrees v) ->
   (forall x, In x l1 -> ok fe env1 x) -> (forall x, In x l2 -> ok fe env2 x) ->
   forall s k1 k2, (forall kvs s', ragree (k1 kvs s') (k2 kvs s')) ->
   ragree (ev_pairs fe cfg1 env1 ctx here1 l1 s k1) (ev_pairs fe cfg2 env2 ctx here2 l2 s k2).
@@ -977,7 +978,7 @@ Proof.
 Qed.
 
 (* one argument pair *)
-Lemma arg_pair x1 x2 : erase x1 = erase x2 -> P x1 ->
+Lemma arg_pair x1 x2 : erase x1 = erase x2 -> node_agrees x1 ->
   arg_valid x1 = true -> arg_valid x2 = true ->
   Forall (site_ok fe env1) (sites x1) -> Forall (site_ok fe env2) (sites x2) ->
   forall ctx s v1 s1 v2 s2, ev1 ctx x1 s = Done v1 s1 -> ev2 ctx x2 s = Done v2 s2 ->
@@ -1007,7 +1008,7 @@ Qed.
 
 Lemma ev_args_agree (S1 S2 : nat -> kind -> Prop) ctx : forall l1 l2 i s k1 k2,
   map erase l1 = map erase l2 ->
-  (forall x, In x l1 -> P x) ->
+  (forall x, In x l1 -> node_agrees x) ->
   (forall x, In x l1 -> arg_valid x = true /\ Forall (site_ok fe env1) (sites x)) ->
   (forall x, In x l2 -> arg_valid x = true /\ Forall (site_ok fe env2) (sites x)) ->
   (forall j x k, nth_error l1 j = Some x -> arg_class x = Some k -> S1 (i + j)%nat k) ->
@@ -1062,7 +1063,7 @@ Qed.
 Ltac ok_inv H := unfold ok in H; cbn [wf sites opt_all opt_sites] in H; rewrite ?andb_true_iff, ?Forall_app in H.
 Ltac ok_solve := unfold ok; tauto.
 
-Theorem agree_all : forall n e1, (esize e1 < n)%nat -> P e1.
+Theorem agree_all : forall n e1, (esize e1 < n)%nat -> node_agrees e1.
 Proof.
   induction n as [|n IH]; intros e1 Hn; [lia|].
   intros e2 E O1 O2. unfold same_shape in E.
@@ -1101,9 +1102,10 @@ Proof.
     assert (Al : agree l1 l2) by (apply (IH l1 ltac:(cbn [esize] in Hn; lia) l2 El); ok_solve).
     assert (Ar : agree r1 r2) by (apply (IH r1 ltac:(cbn [esize] in Hn; lia) r2 Er); ok_solve).
     destruct re1 as [p|].
-    + apply ragree_rbind; [apply Al|]. intros va s1. ra. destruct (re_match fe p a); ra.
-    + apply ragree_rbind; [apply Al|]. intros va s1. apply ragree_rbind; [apply Ar|]. intros vb s2. ra.
-      destruct (re_match fe a a0); ra.
+    + apply ragree_rbind; [apply Al|]. intros va s1. apply ragree_lift. intros subj.
+      destruct (re_match fe p subj); ra.
+    + apply ragree_rbind; [apply Al|]. intros va s1. apply ragree_rbind; [apply Ar|]. intros vb s2.
+      apply ragree_lift. intros pat. apply ragree_lift. intros subj. destruct (re_match fe pat subj); ra.
   - (* property *) injection E as _ Ex En Ens. subst nm2 ns2. ok_inv O1. ok_inv O2. rewrite !ev_property.
     apply ragree_rbind; [apply (IH x1 ltac:(cbn [esize] in Hn; lia) x2 Ex); ok_solve|]. intros v s1. ra.
   - (* index *) injection E as _ Ex Ei. ok_inv O1. ok_inv O2. rewrite !ev_index.
